@@ -42,7 +42,7 @@ class _Memo:
         return r
 
     def op2(self, op, a, b):
-        k = (op, a.get_id(), b.get_id())
+        k = (op, tid(a), tid(b))
         r = self.bin.get(k)
         if r is None:
             if op == '==':
@@ -73,18 +73,22 @@ class _Memo:
         return r[0]
 
     def op1(self, op, a):
-        k = (op, a.get_id())
+        k = (op, tid(a))
         r = self.un.get(k)
         if r is None:
             if op == 'not':
-                if z3.is_not(a):
-                    t = a.arg(0)
-                elif z3.is_true(a):
+                ia = tid(a)
+                if ia in _NOT_CHILD:
+                    t = _NOT_CHILD[ia]
+                elif ia == TRUE_ID:
                     t = FALSE
-                elif z3.is_false(a):
+                elif ia == FALSE_ID:
                     t = TRUE
+                elif z3.is_not(a):
+                    t = a.arg(0)
                 else:
                     t = z3.Not(a)
+                    _NOT_CHILD[tid(t)] = a
             elif op == 'neg':
                 t = -a
             elif op == 'b2i':
@@ -95,7 +99,7 @@ class _Memo:
         return r[0]
 
     def app(self, f, *args):
-        k = ('app', f.name(), tuple(a.get_id() for a in args))
+        k = ('app', f.name(), tuple(tid(a) for a in args))
         r = self.bin.get(k)
         if r is None:
             r = self.bin[k] = (f(*args), args)
@@ -105,6 +109,20 @@ class _Memo:
 M = _Memo()
 TRUE = z3.BoolVal(True)
 FALSE = z3.BoolVal(False)
+
+
+def tid(e):
+    """ast id of a term, cached on the Python wrapper object"""
+    try:
+        return e._sid
+    except AttributeError:
+        i = e._sid = e.get_id()
+        return i
+
+
+TRUE_ID = tid(TRUE)
+FALSE_ID = tid(FALSE)
+_NOT_CHILD = {}      # id of Not(x) -> x, for terms built through the memo
 
 
 def _crc(e):
@@ -123,6 +141,9 @@ class Engine:
         self.solver.set('timeout', timeout_ms)
         self.solver.set('random_seed', seed & 0x7fffffff)
         self.seed = seed
+        self._cref = self.solver.ctx.ref()
+        self._sref = self.solver.solver
+        self._bounds = {}
         self.stats = Stats()
         self.worklist = []
         self.forced = []
@@ -143,6 +164,9 @@ class Engine:
         Engine.cur = self
 
     # ------------------------------------------------------------ solver
+    def _assert(self, e):
+        z3.Z3_solver_assert(self._cref, self._sref, e.ast)
+
     def _check(self, *assumptions):
         t = time.perf_counter()
         r = self.solver.check(*assumptions)
@@ -167,10 +191,18 @@ class Engine:
         n = self._name(name)
         v = M.const(n, 'i')
         self.path_vars.append((n, v))
-        if lo is not None:
-            self.solver.add(M.op2('<=', M.intval(lo), v))
-        if hi is not None:
-            self.solver.add(M.op2('<=', v, M.intval(hi)))
+        if lo is not None or hi is not None:
+            bk = (n, lo, hi)
+            b = self._bounds.get(bk)
+            if b is None:
+                b = []
+                if lo is not None:
+                    b.append(M.op2('<=', M.intval(lo), v))
+                if hi is not None:
+                    b.append(M.op2('<=', v, M.intval(hi)))
+                self._bounds[bk] = b
+            for c in b:
+                self._assert(c)
         return SymInt(v)
 
     def fresh_bool(self, name):
@@ -203,7 +235,7 @@ class Engine:
         """Domain constraint (a SymBool or bool) asserted without a feasibility
         query; part of the declared input space, not a path decision."""
         if getattr(type(cond), '_is_sym', False):
-            self.solver.add(cond.e)
+            self._assert(cond.e)
         elif not cond:
             raise PathAbort()
 
@@ -252,19 +284,20 @@ class Engine:
     # ------------------------------------------------------------ decisions
     def decide(self, e):
         """Branch on z3 Bool term e; returns a Python bool."""
-        if z3.is_true(e):
+        key = tid(e)
+        if key == TRUE_ID:
             return True
-        if z3.is_false(e):
+        if key == FALSE_ID:
             return False
         neg = False
-        while z3.is_not(e):
-            e = e.arg(0)
+        while key in _NOT_CHILD:
+            e = _NOT_CHILD[key]
+            key = tid(e)
             neg = not neg
-            if z3.is_true(e):
+            if key == TRUE_ID:
                 return not neg
-            if z3.is_false(e):
+            if key == FALSE_ID:
                 return neg
-        key = e.get_id()
         hit = self.known.get(key)
         if hit is not None:
             return hit[0] != neg
@@ -294,7 +327,7 @@ class Engine:
             else:
                 raise PathAbort()
         self.trail.append((v, key))
-        self.solver.add(e if v else M.op1('not', e))
+        self._assert(e if v else M.op1('not', e))
         self.known[key] = (v, e)
         self.stats.decisions += 1
         return v != neg
